@@ -8,7 +8,7 @@ def add(i, engine, technique, text, note, ref):
     CHECKS[i] = dict(engine=engine, technique=technique, text=text, note=note, ref=ref)
 
 add("C01", "pbt", "property-based testing (proptest): independent-decoder differential + round-trip over a boundary-biased term generator",
-    "Generated-input search: every generated term (all 17 variants, every listed boundary class, all library representations) is encoded, read back by an independent ETF reader written from the OTP docs, decoded by the library, and re-encoded; any divergence is shrunk to a minimal term. Search, not proof.",
+    "Generated-input search: every generated term (all 17 variants, every listed boundary class, all library representations) is encoded, read back by an independent ETF reader written from the OTP docs, decoded by the library, and re-encoded (encode_to_writer also into sinks that take 1..4096 bytes per call and into a full sink); any divergence is shrunk to a minimal term. Search, not proof.",
     "Trusts the harness's reference reader (refmodel) as a correct reading of erl_ext_dist; containers > 2^32-1 elements cannot be materialised.",
     "DESIGN.md §7 C01")
 
@@ -46,7 +46,7 @@ add("C13", "pbt", "differential testing owned vs zero-copy decoder over valid en
     "Nesting depth of inputs is bounded (stack exhaustion is C02's subject).",
     "DESIGN.md §7 C13")
 add("C14", "pbt", "exhaustive sweep of atom counts 0..258 x long-atom x payload + proptest; independent distribution-header reader and a conforming sender model with persistent 2048-slot cache",
-    "(a) The library's header-mode encodings for every atom count/parity/length class are read by an independent header reader and by the library's own reader; (b) sequences of messages from a conforming sender model (new entries, re-use across messages, overwrites, all segments, position != slot, inline and long atoms) must decode, with one AtomCache, to exactly what the sender meant, also when an earlier message was cut short behind its (complete) header.",
+    "(a) The library's header-mode encodings for every atom count/parity/length class are read by an independent header reader and by the library's own reader; (b) sequences of messages from a conforming sender model (new entries, re-use across messages, overwrites, all segments, position != slot, inline and long atoms, headers of up to 255 references mixing new and known entries) must decode, with one AtomCache, to exactly what the sender meant, also when an earlier message was cut short behind its (complete) header.",
     "Trusts refmodel::dist as a reading of the distribution header layout.",
     "DESIGN.md §7 C14")
 add("C15", "pbt", "property-based round-trip testing over a family of 38 Rust types (serde derive + derive(ElixirStruct)), via term and via bytes",
@@ -73,11 +73,11 @@ add("C04", "netbed", "stateful property-based testing of the handshake API again
     "Own MD5 and handshake layouts from the OTP docs; virtual time moves only when the script advances it (auto-advance inhibited), real-time watchdog => inconclusive.",
     "DESIGN.md §7 C04")
 add("C06", "netbed", "model-based property testing: scripts from a conforming sender model (pass-through / distribution header with persistent atom cache / fragments / ticks / junk) over a real loopback socket with generated TCP segmentation",
-    "Generated scripts of valid messages of every control kind in every wire form, interleaved with ticks and malformed frames, are written in arbitrary segments; Connection::receive_message and receive_message_from_read_half must return each valid message exactly once, in order, unchanged, with at most one error per bad frame and no panic; a frame the peer started and abandoned by closing the connection must not be returned as a message.",
+    "Generated scripts of valid messages of every control kind in every wire form, interleaved with ticks and malformed frames, are written in arbitrary segments; Connection::receive_message and receive_message_from_read_half must return each valid message exactly once, in order, unchanged, with at most one error per bad frame and no panic; a frame the peer started and abandoned by closing the connection must not be returned as a message; on the read-half loop the peer may fall silent for longer than the per-frame timeout and end the silence with a frame in two pieces.",
     "Known open finding C06-F1 (messages in >= 2 fragments, root cause C09-F1); junk never poses as a header frame of the connection.",
     "DESIGN.md §7 C06")
 add("C07", "netbed", "property-based testing with an independent protocol reader on the peer side + generated task schedules at instrumented yield points (concurrent senders through one Node)",
-    "Sequences of the six send-side operations with generated arguments in both framing modes (incl. asymmetric flag offers, payloads with 248..320 distinct atoms around the header's limit of 255, unencodable operations, never-connected and closed connections) are read back by an independent deframer and reader and compared with the protocol's control tuple; 1..5 tasks issue operations through one Node under generated schedules that yield between the partial writes of a frame: frames must not interleave and per-task order must hold.",
+    "Sequences of the six send-side operations with generated arguments in both framing modes (incl. asymmetric flag offers, payloads with 248..320 distinct atoms around the header's limit of 255, sends whose frame length steps byte by byte across 2^12..2^16, unencodable operations, never-connected and closed connections) are read back by an independent deframer and reader and compared with the protocol's control tuple; 1..5 tasks issue operations through one Node under generated schedules that yield between the partial writes of a frame: frames must not interleave and per-task order must hold.",
     "Task interleaving is controlled at sched_point hooks and real I/O waits only.",
     "DESIGN.md §7 C07")
 add("C17", "netbed", "stateful property-based testing: generated waves of concurrent remote calls against a scripted peer (replies in generated order, late / duplicate / stray replies, silence, peer close before or during a wave) + generated task schedules, virtual clock",
